@@ -7,6 +7,7 @@ use crate::ProgramRef;
 use deno_ast::swc::ast::VarDecl;
 use deno_ast::swc::ecma_visit::noop_visit_type;
 use deno_ast::swc::ecma_visit::Visit;
+use deno_ast::swc::ecma_visit::VisitWith;
 use deno_ast::SourceRangedForSpanned;
 use derive_more::Display;
 
@@ -61,6 +62,8 @@ impl Visit for SingleVarDeclaratorVisitor<'_, '_> {
         SingleVarDeclaratorMessage::Unexpected,
       );
     }
+    // initializers may contain functions with declarations of their own
+    var_decl.visit_children_with(self);
   }
 }
 
